@@ -34,6 +34,10 @@ const POOL: &[&str] = &[
     "adv\\d",
     // the empty tag (`$tag=`) is a tag like any other: such a rule is not the twin of an untagged one
     "@@adv$tag=", "adv$important,tag=",
+    // same bucket, same mask, different long initiator lists (rules with `$domain=` are not fusion
+    // candidates; any digest of such a list is not the list)
+    "/adv/top$domain=x.com|n01.com|n02.com|n03.com|n04.com|n05.com|n06.com|n07.com|n08.com|n09.com|n10.com|n11.com|n12.com|n13.com",
+    "/adv/side$domain=y.com|m01.com|m02.com|m03.com|m04.com|m05.com|m06.com|m07.com|m08.com|m09.com|m10.com|m11.com|m12.com|m13.com",
     // same bucket, masks that differ in exactly one bit the existing pairs do not cover
     // empty patterns (match everything) next to token-less partners with the same mask
     "*$image", "$image", "/a*b$image", "/a$image", "a^$image", "/a.b|$image",
@@ -42,7 +46,7 @@ const POOL: &[&str] = &[
 
 fn requests() -> Vec<Req> {
     let mut out = vec![];
-    let paths = ["/", "/adv", "/advert", "/advice", "/adv/x", "/advx", "/adv1", "/ADV", "/xadv", "/adv?q=1", "/advert?q=1&r=2", "/advice/", "/adv.js", "/x/advert/y", "/advertx", "/ad", "/a", "/a.b", "/a.b/", "/xa", "/a1b.c", "/a1b", "/a1b/x", "/a1b.c/x", "/r?u=https://x.com/a1c", "/r?u=https://x.com/a1b"];
+    let paths = ["/", "/adv", "/advert", "/advice", "/adv/x", "/advx", "/adv1", "/ADV", "/xadv", "/adv?q=1", "/advert?q=1&r=2", "/advice/", "/adv.js", "/x/advert/y", "/advertx", "/ad", "/a", "/a.b", "/a.b/", "/xa", "/a1b.c", "/a1b", "/a1b/x", "/a1b.c/x", "/adv/top", "/adv/side", "/r?u=https://x.com/a1c", "/r?u=https://x.com/a1b"];
     for host in ["x.com", "adv.net", "sub.adv.net"] {
         for p in paths {
             for (src, ty) in [("https://x.com/", "script"), ("https://y.com/", "script"), ("https://x.com/", "image"), ("https://y.com/", "subdocument"), ("", "document")] {
